@@ -44,6 +44,27 @@ func SetSchedHooks(lock func(m interface{}, mode string, site string), yield fun
 	mu.Unlock()
 }
 
+// SetSleep installs (nil removes) the simulated sleep: timers created by git-bug then fire at once
+// and the callback is told how long they were meant to last, so the simulator can advance its clock.
+func SetSleep(f func(d time.Duration)) { mu.Lock(); sleepFn = f; mu.Unlock() }
+
+var sleepFn func(d time.Duration)
+
+// NewTimer is time.NewTimer for git-bug's retry and rate-limit waits (R-timer).
+func NewTimer(d time.Duration) *time.Timer {
+	mu.Lock()
+	f := sleepFn
+	mu.Unlock()
+	if f != nil {
+		f(d)
+		return time.NewTimer(0)
+	}
+	return time.NewTimer(d)
+}
+
+// Until is time.Until against the simulated clock.
+func Until(t time.Time) time.Duration { return t.Sub(Now()) }
+
 // Now is the wall clock git-bug reads.
 func Now() time.Time {
 	mu.Lock()
